@@ -146,7 +146,7 @@ func TestCorpus(t *testing.T) {
 		if !rec.Thorough() {
 			h := fnv.New32a()
 			h.Write([]byte(path))
-			if (int64(h.Sum32())+rec.Seed())%12 != 0 {
+			if (int64(h.Sum32())+rec.Seed())%16 != 0 {
 				continue
 			}
 		}
